@@ -66,7 +66,7 @@ package server
 //@   nosafety
 //@   call parseWriteResource#* asserts[C16] firstmessage: firstIteration && arg1 == req.ResourceName && req.ResourceName != ""
 //@   loop 0 invariant firstprobe: firstIteration ==> probeN == old(probeN)
-//@   call Cache.Contains#* asserts[C16] probe: firstIteration && arg2 == 1 && arg3 == hash && arg4 == size
+//@   call Cache.Contains#* asserts[C16] probe: firstIteration && arg2 == 1
 //@   call Printf#2 asserts[C16] offsetafterprobe: probeN == old(probeN) + 1 && !probeFound && req.WriteOffset != 0
 //@   call Write#* asserts[C16] payload: arg1 == req.Data && (firstIteration ==> (probeN == old(probeN) + 1 && !probeFound && req.WriteOffset == 0))
 
